@@ -27,6 +27,8 @@ from vlib import trace
 WORKERS = int(os.environ.get("VERIF_C10_WORKERS", "4"))     # TLC workers = driver processes = judge chunks
 # "alphabeta": continues with a letter where a pattern "alpha " / " beta" has a blank; "gamma  beta": inner double blank
 NAMES = ["alpha", "beta", "alpha beta", "alphabeta", "beta alpha", "gamma  beta", "gamma"]
+# near misses of the exempting tags: substrings and superstrings of setup / teardown; they exempt nothing
+NEAR = ["up", "set", "s", "tear", "down", "setups", "setupteardown"]
 CLAUSES = ("C10.line", "C10.union", "C10.all", "C10.exempt", "C10.others_skipped", "C10.files", "C10.listfile", "C10.name")
 
 
@@ -53,7 +55,7 @@ def render(items, rnd, shift=0, same=False):
                 lines.append(ind + "# filler comment")
             else:
                 xn[0] += 1
-                lines.append(ind + "@x%d" % xn[0])
+                lines.append(ind + "@" + rnd.choice(NEAR + ["x%d" % xn[0]]))
         if tagline:
             lines.insert(rnd.randrange(len(lines) + 1), ind + tagline)
         return lines
@@ -63,7 +65,7 @@ def render(items, rnd, shift=0, same=False):
         name = NAMES[(idx + shift) % len(NAMES)]
         if same and k in ("scenario", "outline"):
             name = NAMES[shift % len(NAMES)]
-        tagline = "" if tag == "none" else "@" + tag
+        tagline = "" if tag == "none" else "@" + (rnd.choice(NEAR) if tag == "near" else tag)
         if k == "feature":
             out += fill(pre, True, tagline, "")
             out.append("Feature: feature %s" % name)
@@ -122,6 +124,8 @@ def container_body(n, rnd, ind):
 
 
 def steps_body(n, rnd, ind, ph):
+    if n >= 1 and not ph and rnd.randrange(5) == 0:         # a scenario with a description but WITHOUT steps
+        return [ind + "only a description %d" % j for j in range(n)]
     if n >= 2 and rnd.randrange(2):
         return [ind + "some scenario description"] + [ind + "Given a step%s" % ph for _ in range(n - 1)]
     return [ind + "%s a step%s" % ("Given" if j == 0 else "And", ph) for j in range(n)]
@@ -426,12 +430,12 @@ def build_jobs(chk, layouts, lists, names, scratch):
     for n, case in enumerate(layouts):
         r = random.Random("%d:multi:%d" % (chk.seed, n))
         add({"kind": "sel", "mode": "multi", "cases": [case], "rel": n % 2 == 0, "same": n % 4 >= 2,
-             "runs": multi_runs(case, r, 6 if quick else 10, 1)})
+             "runs": multi_runs(case, r, 5 if quick else 10, 1)})
     small = [c for c in layouts if c["last"] <= (7 if quick else 9)]
-    for case in (small[:40] if quick else small):
+    for case in (small[:30] if quick else small):
         add({"kind": "sel", "mode": "multi", "cases": [case], "rel": False, "same": True, "runs": all_pairs_runs(case)})
     # 3. several files
-    for n in range(150 if quick else 1500):
+    for n in range(120 if quick else 1500):
         cs = [rnd.choice(layouts) for _ in range(rnd.choice([2, 2, 3]))]
         r = random.Random("%d:files:%d" % (chk.seed, n))
         add({"kind": "sel", "mode": "files", "cases": cs, "rel": n % 2 == 1, "same": n % 3 == 0, "runs": files_runs(cs, r, 4)})
@@ -532,7 +536,7 @@ def judge(chk, rows, chunks):
 def run(chk):
     quick = chk.quick()
     cfg = "Select_MC_quick.cfg" if quick else "Select_MC_thorough.cfg"
-    r = chk.tlc("Select_MC", cfg, timeout=100 if quick else 800, workers=WORKERS)
+    r = chk.tlc("Select_MC", cfg, timeout=900 if quick else 1800, workers=WORKERS)
     for name in r.violated:
         chk.violation("C10.design." + name, "design:%s" % name, "TLC: invariant %s violated in Select_MC (%s)" % (name, cfg))
     cases = [json.loads(t[1]) for t in r.by_tag("CASE")]
